@@ -895,8 +895,15 @@ pub fn gen_scenario_t(rng: &mut Rng, miri: bool, long: bool, thorough: bool) -> 
             queue = *rng.pick(&[5usize, 8, 13, 16, 33]);
         }
     }
+    // a queue of thousands of slots with an input of more, or of fewer, record sets than that
+    let giant_queue = !miri && !long && rng.chance(1, 150);
+    if giant_queue {
+        queue = *rng.pick(&[1000usize, 1024, 1025, 2049, 2050, 2800, 5000]);
+    }
     let n = if miri {
         rng.below(5)
+    } else if giant_queue {
+        *rng.pick(&[0usize, 3, 1030, 1500, 3000])
     } else if long {
         200 + rng.below(300)
     } else {
@@ -905,7 +912,11 @@ pub fn gen_scenario_t(rng: &mut Rng, miri: bool, long: bool, thorough: bool) -> 
             _ => rng.below(if thorough { 41 } else { 13 }),
         }
     };
-    let sizes = Sizes::List((0..n).map(|_| if rng.chance(1, 4) { rng.below(30) } else { rng.below(4) }).collect());
+    let sizes = if giant_queue {
+        Sizes::Const(1 + rng.below(3), n)
+    } else {
+        Sizes::List((0..n).map(|_| if rng.chance(1, 4) { rng.below(30) } else { rng.below(4) }).collect())
+    };
     let consumer = match rng.below(10) {
         0 => Consumer::StopAfter(0),
         1 | 2 | 3 => Consumer::StopAfter(rng.below(n + 2)),
@@ -920,6 +931,8 @@ pub fn gen_scenario_t(rng: &mut Rng, miri: bool, long: bool, thorough: bool) -> 
     };
     let delay = if miri {
         Delay::Yield
+    } else if giant_queue {
+        Delay::None
     } else {
         *rng.pick(&[
             Delay::None,
@@ -933,7 +946,7 @@ pub fn gen_scenario_t(rng: &mut Rng, miri: bool, long: bool, thorough: bool) -> 
             Delay::TargetRole,
         ])
     };
-    let (delay, delay_target) = if !miri && !long && n > 0 && rng.chance(1, 100) {
+    let (delay, delay_target) = if !miri && !long && !giant_queue && n > 0 && rng.chance(1, 100) {
         (Delay::StallOne, rng.below(n))
     } else {
         match delay {
